@@ -1517,6 +1517,22 @@ def h_successors(I, st, a, t, b):
     return {'#iter': 'seq', 'items': tuple(out), 'pos': 0}
 
 
+def h_try_branch(I, st, a, t, b):
+    """`x?` on an Option / Result value: ControlFlow::Continue(payload) = variant 0, ControlFlow::Break(residual) = variant 1"""
+    v = _deref_arg(I, st, a[0])
+    if not (isinstance(v, tuple) and v and v[0] == 'enum'):
+        raise Unsupported('`?` on %r' % (v,))
+    ty = (t['callee'].get('args') or '') + ' ' + b.local_ty(t['args'][0]['place']['local'] if t['args'][0].get('k') in ('copy', 'move') else 0)
+    is_opt = 'Option<' in ty and 'Result<' not in ty.split('Option<')[0]
+    if is_opt:
+        return ('enum', 0, (v[2][0],)) if v[1] == 1 else ('enum', 1, (('enum', 0, ()),))
+    return ('enum', 0, (v[2][0],)) if v[1] == 0 else ('enum', 1, (('enum', 1, tuple(v[2])),))
+
+
+def h_from_residual(I, st, a, t, b):
+    return _deref_arg(I, st, a[0])
+
+
 def h_to_vec(I, st, a, t, b):
     return tuple(_seq_of(I, st, a[0]))
 
@@ -1713,7 +1729,7 @@ BUILTINS.update({
     'Vec::is_empty': h_is_empty, 'slice::is_empty': h_is_empty, 'slice::last': h_seq_last, 'slice::first': h_seq_first, 'slice::get': h_seq_get,
     'iter::once': h_iter_once, 'sources::once': h_iter_once, 'once::once': h_iter_once, 'Iterator::chain': h_iter_chain, 'slice::windows': h_windows, 'Option::unwrap': h_opt_unwrap,
     'IndexMut::index_mut': h_index_mut,
-    'slice::to_vec': h_to_vec, 'Iterator::take': h_iter_take, 'Iterator::skip': h_iter_skip, 'slice::reverse': h_reverse, 'Vec::append': h_vec_append, 'mem::swap': h_mem_swap,
+    'Try::branch': h_try_branch, 'FromResidual::from_residual': h_from_residual, 'slice::to_vec': h_to_vec, 'Iterator::take': h_iter_take, 'Iterator::skip': h_iter_skip, 'slice::reverse': h_reverse, 'Vec::append': h_vec_append, 'mem::swap': h_mem_swap,
     'PartialEq::eq': h_str_eq, 'str::eq': h_str_eq, 'iter::successors': h_successors, 'successors::successors': h_successors, 'sources::successors': h_successors,
     'Index::index': h_vec_index, 'Vec::new': h_vec_new, 'Vec::with_capacity': h_vec_new, 'Vec::push': h_vec_push, 'slice::iter_mut': h_iter_mut, 'Vec::iter_mut': h_iter_mut, 'Iterator::filter': h_iter_filter, 'Iterator::filter_map': h_iter_filter_map, 'Extend::extend': h_extend, 'Vec::extend': h_extend,
 })
